@@ -162,6 +162,60 @@ def build_scenario(name: str) -> tuple:
 
         sc.keep = gens
         return sc, Custom()
+    if name == "gcm_pruned":
+        # a piece of plumbing: a generator-based manager (with a manager and a delegated helper inside) that a hook hides with
+        # PRUNE, and a class-based one with two child stacks that its hook hides too.  Hidden, not forgotten: what was found while
+        # looking inside them (their inner stack, their children, and any fault met there) stays on the hidden Context.
+        import stackscope
+
+        class Res:
+            def __enter__(self):
+                return self
+
+            def __exit__(self, *a):
+                return False
+
+        def helper():
+            yield 1
+
+        @contextlib.contextmanager
+        def plumbing_cm():
+            with Res():
+                yield from helper()
+
+        stackscope.unwrap_context_generator.register(plumbing_cm)(lambda frame, ctx: stackscope.PRUNE)
+
+        def kid():
+            yield
+
+        class Group(Res):
+            def __init__(self):
+                self.kids = [kid(), kid()]
+                for k in self.kids:
+                    next(k)
+
+        @stackscope.elaborate_context.register(Group)
+        def elab_group(mgr, ctx):
+            from stackscope import _extract      # (looked up at call time: the fault-injection patcher wraps this entry point)
+
+            ctx.children = [_extract.extract_child(k, for_task=False) for k in mgr.kids]
+
+        @stackscope.unwrap_context.register(Group)
+        def unwrap_group(mgr, ctx):
+            return stackscope.PRUNE
+
+        async def inner():
+            with plumbing_cm():
+                with Group():
+                    await trap()
+
+        async def outer():
+            await inner()
+
+        co = outer()
+        co.send(None)
+        sc.cleanup.append(co.close)
+        return sc, co
     if name in ("gcm_active", "gcm_exiting"):
         import stackscope
 
@@ -400,7 +454,7 @@ class C05(PropCheck):
         nB = 60 if tier == "quick" else 500
         for c in envs[:nB]:
             out.append({"k": "sweep", "env": c, "pairs": 3 if tier == "quick" else 10, "seed": rng.randrange(1 << 30)})
-        for name in ("async_chain", "thread", "greenlet", "custom", "gcm_active", "gcm_exiting"):
+        for name in ("async_chain", "thread", "greenlet", "custom", "gcm_active", "gcm_exiting", "gcm_pruned"):
             for m, kind in HOOKS:
                 out.append({"k": "scenario", "name": name, "kind": kind})
         out.append({"k": "objects"})
@@ -427,7 +481,34 @@ class C05(PropCheck):
             return self.run_scenario(case)
         if case["k"] == "objects":
             res = []
-            for o in (None, 0, "str", 3.5, object(), [1, 2], (sys._getframe(0),), {"a": 1}, type, lambda: 0, Exception("x"), b"b"):
+            class Array:          # numpy / pandas style: a comparison has no truth value
+                def __eq__(self, other):
+                    raise ValueError("The truth value of an array with more than one element is ambiguous")
+
+                __ne__ = __eq__
+                __hash__ = object.__hash__
+
+            class Column:         # SQL-expression style: == / != build an expression object that refuses bool()
+                class Expr:
+                    def __bool__(self):
+                        raise TypeError("Boolean value of this clause is not defined")
+
+                def __eq__(self, other):
+                    return Column.Expr()
+
+                __ne__ = __eq__
+                __hash__ = object.__hash__
+
+            class Falsy:
+                def __bool__(self):
+                    return False
+
+            class Sized:
+                def __len__(self):
+                    return 0
+
+            for o in (None, 0, "str", 3.5, object(), [1, 2], (sys._getframe(0),), {"a": 1}, type, lambda: 0, Exception("x"), b"b",
+                      Array(), Column(), Falsy(), Sized(), [], "", 0.0, ()):
                 try:
                     st = stackscope.extract(o)
                     f = common_checks(st, None)
